@@ -104,3 +104,16 @@ Theorem restore_output_discipline : forall (B : Type) (H : list B -> N) (body : 
          (f_side fsf) = true.
 Proof. exact Proofs.restore_output_discipline. Qed.
 Print Assumptions restore_output_discipline.
+
+(** Finding F7 (known finding C10/ltx-decoder-close-panics-...): the decoder's
+    Close panics instead of returning an error exactly when fewer than 8 bytes
+    follow the page-block end marker. *)
+Theorem decoder_close_never_panics_refuted :
+  exists remaining, decoder_close_hashed_len remaining = None.
+Proof. exact ResProofs.decoder_close_never_panics_refuted. Qed.
+Print Assumptions decoder_close_never_panics_refuted.
+
+Theorem decoder_close_panic_window : forall remaining,
+  decoder_close_hashed_len remaining = None <-> remaining < ltx_checksum_size.
+Proof. exact ResProofs.decoder_close_panic_window. Qed.
+Print Assumptions decoder_close_panic_window.
